@@ -149,14 +149,19 @@ theorem fault_type_sub_div_first {σ : Store} {x : Value} {rest : List Value} (h
     BuiltinFault σ .sub (x :: rest) .type ∧ BuiltinFault σ .div (x :: rest) .type := by
   constructor <;>
   · refine .intro (by decide) (by simp [Builtin.arity, arityOk]) (by decide) ?_ ?_ <;>
-    · simp only [applyPure, subDiv, expectNumber_err hx]; rfl
+    · simp only [applyPure, divArgs_first_nonnum hx, subDiv, expectNumber_err hx]; rfl
+
+example : applyPure {} .div [.str "a", .num (.int 0)] = (.error (.type, none), {}) := rfl
 
 /-- `-` and `/`: a second argument that is not a number -/
 theorem fault_type_sub_div_second {σ : Store} {a : Num} {x : Value} {rest : List Value} (hx : ¬ IsNum x) :
     BuiltinFault σ .sub (.num a :: x :: rest) .type ∧ BuiltinFault σ .div (.num a :: x :: rest) .type := by
   constructor <;>
   · refine .intro (by decide) (by simp [Builtin.arity, arityOk]) (by decide) ?_ ?_ <;>
-    · cases x <;> first | exact absurd trivial hx | (simp only [applyPure, subDiv, expectNumber]; rfl)
+    · simp only [applyPure, divArgs_second_nonnum hx]
+      cases x <;> first | exact absurd trivial hx | (simp only [subDiv, expectNumber]; rfl)
+
+example : applyPure {} .div [.num (.int 1), .str "a", .num (.int 0)] = (.error (.type, none), {}) := rfl
 
 /-- `= < <= > >=`: the first argument that is not a number, whether or not the adjacent pairs of
 numbers before it are in order (every argument is type-checked, also after a pair out of order has
@@ -313,40 +318,64 @@ theorem fault_div_zero_num {a b : Num} (ha : a.Exact) (hb : b.ExactZero) :
 
 example : (Num.rat 1 2).Exact ∧ (Num.int 0).ExactZero ∧ (Num.rat 0 5).ExactZero := ⟨trivial, rfl, rfl⟩
 
-/-- `(/ a b …)`, `(/ b)`, `(floor-quotient a b)`, `(floor-remainder a b)` with exact `a` and an exact
-zero `b`: `divZero`, store unchanged -/
+/-- `(/ a b …)`, `(/ b)`, `(floor-quotient a b)`, `(floor-remainder a b)` with an exact first OPERAND `a` and an
+exact zero `b`: `divZero`, store unchanged. (`a` is an operand, not a running quotient: with an inexact `a` the
+quotient `a / 0` is an infinity or a NaN, not an error. For a zero divisor further on see `fault_div_zero_later`,
+which assumes nothing about the quotient so far.) -/
 theorem fault_div_zero {σ : Store} {a b : Num} (rest : List Value) (ha : a.Exact) (hb : b.ExactZero) :
     BuiltinFault σ .div (.num a :: .num b :: rest) .divZero ∧
     BuiltinFault σ .div [.num b] .divZero ∧
     BuiltinFault σ .floorQuotient [.num a, .num b] .divZero ∧
     BuiltinFault σ .floorRemainder [.num a, .num b] .divZero := by
+  have h2 : divArgs (.num a :: .num b :: rest) = .error .divZero :=
+    divArgs_exact_zero (pre := [a]) (fun x hx => by rw [List.mem_singleton.mp hx]; exact ha) hb (.inl (by simp))
+  have h1 : divArgs [.num b] = .error .divZero :=
+    divArgs_exact_zero (pre := []) (fun x hx => by cases hx) hb (.inr rfl)
   refine ⟨?_, ?_, ?_, ?_⟩
   · refine .intro (by decide) (by simp [Builtin.arity, arityOk]) (by decide) ?_ ?_ <;>
-    · simp only [applyPure, subDiv, expectNumber]
-      show lift _ (Num.div a b >>= _) _ = _
-      rw [Num.div_exactZero ha hb]; rfl
+    · simp only [applyPure, h2]; rfl
   · refine .intro (by decide) rfl (by decide) ?_ ?_ <;>
-    · simp only [applyPure, subDiv, expectNumber]
-      show lift _ (Num.div (.int 1) b) _ = _
-      rw [Num.div_exactZero (a := .int 1) trivial hb]; rfl
+    · simp only [applyPure, h1]; rfl
   · refine .intro (by decide) rfl (by decide) ?_ ?_ <;>
     · simp only [applyPure, num2, expectNumber, Num.floorQuotient_exactZero ha hb]; rfl
   · refine .intro (by decide) rfl (by decide) ?_ ?_ <;>
     · simp only [applyPure, num2, expectNumber, Num.floorRemainder_exactZero ha hb]; rfl
 
-/-- `(/ x₀ x₁ … b …)`: a later exact zero divisor, the quotient so far being exact -/
-theorem fault_div_zero_later {σ : Store} {x y acc b : Num} {init : Num} {pre post : List Value}
-    (hinit : Num.div x y = .ok init) (hpre : foldNum Num.div init pre = .ok acc) (ha : acc.Exact)
-    (hb : b.ExactZero) :
-    BuiltinFault σ .div (.num x :: .num y :: (pre ++ .num b :: post)) .divZero := by
-  refine .intro (by decide) (by simp [Builtin.arity, arityOk]) (by decide) ?_ ?_ <;>
-  · simp only [applyPure, subDiv, expectNumber]
-    show lift _ (Num.div x y >>= _) _ = _
-    rw [hinit]
-    show lift _ (foldNum Num.div init _) _ = _
-    rw [foldNum_div_zero hpre ha hb]; rfl
+example : applyPure {} .div [.num (.rat 1 2), .num (.rat 0 5), .str "a"] = (.error (.divZero, none), {}) ∧
+    applyPure {} .div [.num (.int 0)] = (.error (.divZero, none), {}) := ⟨rfl, rfl⟩
 
-example : Num.div (.int 6) (.int 3) = .ok (.int 2) ∧ foldNum Num.div (.int 2) [] = .ok (.int 2) := ⟨rfl, rfl⟩
+/-- `(/ x₀ x₁ … b …)`: AN EXACT ZERO DIVISOR AT ANY POSITION. If the operands before position `j = pre.length` are
+exact numbers and the operand at position `j` is an exact zero and a divisor (`j ≥ 1`, or `j = 0` in the one-argument
+form `(/ b)`), the builtin `/` fails with `divZero` and the store is unchanged: for argument lists of any length,
+WHATEVER THE INTERMEDIATE QUOTIENTS ARE - in particular when the running quotient has left the `i32` range and is
+carried on as a real, where a plain fold of `Num.div` would return an infinity - and whatever follows position `j`
+(also arguments that are not numbers: they are not reached). -/
+theorem fault_div_zero_later {σ : Store} {pre : List Num} {b : Num} {post : List Value}
+    (hpre : ∀ x ∈ pre, x.Exact) (hb : b.ExactZero) (hj : 1 ≤ pre.length ∨ post = []) :
+    BuiltinFault σ .div (pre.map .num ++ .num b :: post) .divZero := by
+  have h : divArgs (pre.map .num ++ .num b :: post) = .error .divZero :=
+    divArgs_exact_zero hpre hb (hj.imp (fun h e => by rw [e] at h; simp at h) id)
+  refine .intro (by decide) (by simp [Builtin.arity, arityOk]) (by decide) ?_ ?_ <;>
+  · simp only [applyPure, h]; rfl
+
+/-- the instance `(/ 2147483647 1/2 0)`: the quotient `2147483647 / (1/2)` does not fit `i32` and is a real, the
+plain fold goes on to `+inf.0`; the builtin reports the division by zero -/
+example : (∀ x ∈ [Num.int 2147483647, .rat 1 2], x.Exact) ∧ (Num.int 0).ExactZero ∧
+    [Num.int 2147483647, .rat 1 2].map Value.num ++ .num (.int 0) :: [] =
+      [.num (.int 2147483647), .num (.rat 1 2), .num (.int 0)] ∧
+    applyPure {} .div [.num (.int 2147483647), .num (.rat 1 2), .num (.int 0)] = (.error (.divZero, none), {}) ∧
+    (∃ f, Num.div (.int 2147483647) (.rat 1 2) = .ok (.real f)) ∧
+    (∃ f, subDiv Num.div (.int 1) [.num (.int 2147483647), .num (.rat 1 2), .num (.int 0)] = .ok (.real f)) :=
+  ⟨by simp [Num.Exact], rfl, rfl, rfl, ⟨_, rfl⟩, ⟨_, rfl⟩⟩
+
+/-- ... with a non-number after the zero, and with the zero as a ratio `0/7`: still `divZero` -/
+example : applyPure {} .div [.num (.int 2147483647), .num (.rat 1 2), .num (.rat 0 7), .str "a", .num (.real 1.5)] =
+    (.error (.divZero, none), {}) := rfl
+
+/-- the hypotheses cannot be dropped: an INEXACT operand before the zero ends the check (the quotient is then inexact
+by contagion and `x / 0` is an infinity or a NaN), and a zero in the FIRST position of `(/ 0 x …)` is a dividend -/
+example : (∃ f, applyPure {} .div [.num (.int 1), .num (.real 2), .num (.int 0)] = (.ok (.num (.real f)), {})) ∧
+    applyPure {} .div [.num (.int 0), .num (.int 5)] = (.ok (.num (.int 0)), {}) := ⟨⟨_, rfl⟩, rfl⟩
 
 /-- whatever native procedure fails, with whatever error: the store is the one it was given -/
 theorem fault_builtin_store_unchanged {σ σ' : Store} {b : Builtin} {args : List Value} {e : SErr}
